@@ -151,10 +151,18 @@ def run(ctx):
         "nested collect streams) registers its stream name there; D2 no bluesky call passes an explicit seq_num, event_model "
         "counts in the bundler's own dict which is never rebound, new streams start at 1; D3 collect advances the counter by exactly "
         "the width returned for the packed stream datums and stream-datum seq_nums are built from the same counter. "
-        "Not decided: gaplessness under arbitrary device behaviour (event_model's compose functions are trusted).")
+        "D4 re-enabling rewinding snapshots the counters (truth table of the rewindable setter), so events emitted while "
+        "not rewindable are never rolled back. Not decided: gaplessness under arbitrary device behaviour (event_model's compose functions are trusted).")
     d1_unreplayed_streams_keep_numbers(ctx, rm)
     d2_numbering_is_the_counters(ctx, rm)
     d3_collect_accounting(ctx, rm)
+    from . import c04
+    c04.rewindable_toggle_resets(ctx, rm, "C05.D4-snapshot-when-rewinding-is-re-enabled", directions=((False, True),))
+    snap = rm.b("reset_checkpoint_state")
+    loops = [s for s in A.walk_stmts(snap.node.body) if isinstance(s, ast.For) and "self._sequence_counters" in A.norm(s.iter)]
+    ok = bool(loops) and any(isinstance(x, ast.Assign) and "self._sequence_counters_copy[" in A.norm(x.targets[0]) for x in A.walk_stmts(loops[0].body))
+    ctx.ob("C05.D4-snapshot-when-rewinding-is-re-enabled", cname(snap, None, "the reset snapshots every stream's counter"), ok,
+           "" if ok else "the checkpoint no longer snapshots the sequence counters", where=where(snap, snap.node))
 
 
 CLAIM = {
